@@ -109,10 +109,10 @@ def run(c):
     thorough = c.tier == "thorough"
     build.cargo_build("agent")
     # 1. the two designs
-    r_pair = c.tlc("KeyGen", "KeyGen_pair.cfg", subdir="mc", workers=2, timeout=120, required_actions=["Read1", "Send", "Keeper"])
+    r_pair = c.tlc("KeyGen", "KeyGen_pair.cfg", subdir="mc", workers=2, timeout=600, required_actions=["Read1", "Send", "Keeper"])
     if r_pair.violated:
         raise tlcmod.TlcError("KeyPairing fails even with a single read: spec error")
-    r_split = c.tlc("KeyGen", "KeyGen_split.cfg", subdir="mc", workers=2, timeout=120, expect_ok=False)
+    r_split = c.tlc("KeyGen", "KeyGen_split.cfg", subdir="mc", workers=2, timeout=600, expect_ok=False)
     c.extra["design_two_messages_violates_KeyPairing"] = bool(r_split.invariant_violated)
     # 2. which design does the code implement?  count key reads per signature
     probe = [keeper_op("k1"), {"op": "arm", "label": GATE, "skip": 1000000}]
@@ -120,7 +120,7 @@ def run(c):
         probe.append({"op": "wait_arrived", "label": GATE, "n": 0, "timeout_ms": 0})
         probe += schedule_steps(["R1", "SEND"], signer, 9000 + i)[1][1:]
     probe.append({"op": "wait_arrived", "label": GATE, "n": 0, "timeout_ms": 0})
-    ev, d, _ = rig.run_rig({"steps": probe}, "c10_probe", timeout=120)
+    ev, d, _ = rig.run_rig({"steps": probe}, "c10_probe", timeout=600)
     arr = [e["n"] for e in ev if e["e"] == "Arrived"]
     reads = {s: arr[i + 1] - arr[i] for i, s in enumerate(("proxy", "goalstate", "sharedconfig", "imds"))}
     c.extra["key_reads_per_signature"] = reads
@@ -368,7 +368,7 @@ def run(c):
             replay = {"signer": sg, "hist": s["hist"]}
             # re-execute once from the artefact
             rid2, st2 = schedule_steps(s["hist"], sg, 777)
-            ev2, _, _ = rig.run_rig({"steps": st2}, "c10_re", timeout=120)
+            ev2, _, _ = rig.run_rig({"steps": st2}, "c10_re", timeout=600)
             again = [(g, v) for r, g, v, e in sign_events(ev2, None) if g is not None]
             if not again or again[0][0] == again[0][1]:
                 raise util.ToolError("mis-paired signature did not reproduce from its schedule %s" % s["hist"])
@@ -394,7 +394,7 @@ def replay(c, path):
     c.count(json.dumps(case))
     c.sample(case)
     rid, st = schedule_steps(case["hist"], case["signer"], 778)
-    ev, _, _ = rig.run_rig({"steps": st}, "c10_replay", timeout=120)
+    ev, _, _ = rig.run_rig({"steps": st}, "c10_replay", timeout=600)
     for _, g, v, e in sign_events(ev, None):
         if g is not None and g != v:
             c.violation("replayed schedule still mis-pairs id and MAC", r["signature"], case)
